@@ -20,6 +20,10 @@ def _exprs_to_axes(exprs):
     for root in exprs:
         for expr in root.nodes():
             if isinstance(expr, stage3.Axis):
+                if expr.name.startswith(("unnamed.", ".", "UnexpandedEllipsis(")):
+                    # Unnamed axes (e.g. "3"), anonymous ellipses ("...") and ellipses with undetermined expansion have no
+                    # name under which their length could be reported
+                    continue
                 tokens = expr.name.split(".")
                 values[tokens[0]].append((tuple(int(t) for t in tokens[1:]), expr.value))
 
